@@ -97,7 +97,24 @@ def r8_4(ctx):
     g = cfgmod.build(f.node)
     rd = g.reaching_defs(weak=False)
     ys = [n for n in g.stmt_nodes() if n.kind == "stmt" and isinstance(n.stmt, ast.Expr) and isinstance(n.stmt.value, ast.Yield) and n.stmt.value.value is not None and norm(n.stmt.value.value) == "rule_text"]
-    ctx.floor(len(ys), 2, "yield rule_text sites")
+    # a rule produced by a same-class helper:  yield self._helper(.., width)  where the helper's returned Text was resized to
+    # its width parameter by the last statement before the return, and receives `width`
+    n_helper = 0
+    for nd in g.stmt_nodes():
+        if nd.kind == "stmt" and isinstance(nd.stmt, ast.Expr) and isinstance(nd.stmt.value, ast.Yield) and isinstance(nd.stmt.value.value, ast.Call):
+            c = nd.stmt.value.value
+            if isinstance(c.func, ast.Attribute) and isinstance(c.func.value, ast.Name) and c.func.value.id == "self" and f.cls is not None and f.cls.method(c.func.attr) is not None:
+                h = f.cls.method(c.func.attr)
+                body = [b for b in h.node.body if not (isinstance(b, ast.Expr) and isinstance(b.value, ast.Constant))]
+                okh = False
+                if len(body) >= 2 and isinstance(body[-1], ast.Return) and isinstance(body[-1].value, ast.Name) and isinstance(body[-2], ast.Assign):
+                    r = body[-1].value.id
+                    wparams = [p_ for p_, a in zip(h.params[1:], c.args) if norm(a) == "width"]
+                    okh = len(wparams) == 1 and norm(body[-2].targets[0]) == f"{r}.plain" and norm(body[-2].value) == f"set_cell_size({r}.plain, {wparams[0]})"
+                n_helper += 1
+                ctx.check(okh, f.fq, short(c), f"{f.module.relpath}:{nd.lineno}", f"the rule built by {h.name}() is resized to exactly `width` cells right before it is returned",
+                          f"`{short(c)}` yields a rule that {h.name}() does not resize to the given width as its last step")
+    ctx.floor(len(ys) + n_helper, 2, "yield rule_text sites")
     sets = {n.id for n in g.stmt_nodes() if n.kind == "stmt" and isinstance(n.stmt, ast.Assign) and norm(n.stmt.targets[0]) == "rule_text.plain" and norm(n.stmt.value) == "set_cell_size(rule_text.plain, width)"}
     for y in ys:
         # dominated by a resize that comes after the last mutation of rule_text
